@@ -49,7 +49,9 @@ Places ==
         quick == {AQ(1, 0, 0, 1, 20, 30), AQ(0, 1, -1, 0, 60, 20),
                   <<Q(10, 1), RZero, RZero, Q(10, 1), Q(50, 1), Q(50, 1)>>,      \* big copy
                   <<Q(1, 10), RZero, RZero, Q(1, 10), Q(80, 1), Q(80, 1)>>}      \* small donor: x100 overflows Fixed
-    IN  IF Level = "quick" THEN quick ELSE IF Level = "small" THEN base ELSE base \cup more
+        \* "small" keeps the two placements whose ratio leaves the 16.16 range, so that the fallback branches are explored
+        over  == {<<Q(10, 1), RZero, RZero, Q(10, 1), Q(50, 1), Q(50, 1)>>, <<Q(1, 10), RZero, RZero, Q(1, 10), Q(80, 1), Q(80, 1)>>}
+    IN  IF Level = "quick" THEN quick ELSE IF Level = "small" THEN base \cup over ELSE base \cup more
 \* viewBox -> font space (one metrics setup: scale 12, y flip at ascender 950, centred: dx = 37)
 F == <<Q(12, 1), RZero, RZero, Q(-12, 1), Q(37, 1), Q(950, 1)>>
 Fills == IF Level \in {"quick", "small"} THEN {"solid", "gradBBox"} ELSE {"solid", "gradBBox", "gradUser"}
